@@ -345,42 +345,17 @@ Proof.
     pose proof (analyse_ids _ _ _ _ _ _ _ Ea _ Hin) as Hid. simpl in Hid. rewrite Hid. apply job_id_shape.
 Qed.
 
-(* ---- directory crawl *)
-Lemma dir_visit_frame : forall o src rel sp st st' e d0,
-  import_frame d0 (is_dst st) -> dir_visit o src rel sp st = ROk (st', e) -> import_frame d0 (is_dst st').
-Proof.
-  intros o src rel sp st st' e d0 Hf H. unfold dir_visit in H.
-  destruct (str_mem (job_id_of o sp) (is_seen st)); [discriminate|].
-  destruct (copy_to_job_workspace o (fs_subtree (TARGET ++ rel) src) sp (job_id_of o sp) (is_dst st))
-    as [[d' e']| |] eqn:Ec; simpl in H; try discriminate.
-  inversion H; subst. simpl.
-  eapply import_frame_step; [apply job_id_shape|exact Hf|exact Ec].
-Qed.
-
-Lemma dir_crawl_frame : forall fuel o sch src d0 rel st,
-  import_frame d0 (is_dst (p_val st)) ->
-  import_frame d0 (is_dst (p_val (dir_crawl fuel o sch src rel st))).
-Proof.
-  induction fuel as [|fuel IH]; intros o sch src d0 rel st Hf; simpl; [exact Hf|].
-  destruct (p_exn st); [exact Hf|]. destruct (p_ood st); [exact Hf|].
-  destruct (dir_schema_fn o sch src rel) as [[sp|]| |]; simpl; try exact Hf.
-  - destruct (dir_visit o src rel sp (p_val st)) as [[s e]| |] eqn:Ev; simpl; try exact Hf.
-    eapply dir_visit_frame; eauto.
-  - match goal with |- context [fold_left ?f ?l st] => generalize l end.
-    intro l. revert st Hf. induction l as [|n l IHl]; simpl; intros st Hf; [exact Hf|].
-    apply IHl. match goal with |- context [match ?x with _ => _ end] => destruct x as [[c|]|] end; auto.
-Qed.
-
+(* ---- directory origin: the crawl only collects, the copies follow *)
 Theorem import_dir_frame : forall o sch src d0, import_frame d0 (io_dst (import_dir o sch src d0)).
 Proof.
-  intros o sch src d0.
-  assert (E : io_dst (import_dir o sch src d0) =
-              if negb (fs_isdir TARGET src) then d0
-              else is_dst (p_val (dir_crawl (Datatypes.S (List.length src)) o sch src []
-                     {| p_exn := None; p_ood := false; p_val := {| is_dst := d0; is_seen := [] |} |}))).
-  { unfold import_dir. destruct (negb (fs_isdir TARGET src)); reflexivity. }
-  rewrite E. destruct (negb (fs_isdir TARGET src)); [apply import_frame_refl|].
-  apply dir_crawl_frame. apply import_frame_refl.
+  intros o sch src d0. unfold import_dir.
+  destruct (negb (fs_isdir TARGET src)); [apply import_frame_refl|].
+  match goal with |- context [dir_crawl ?a ?b ?c ?d ?e ?f] => generalize (dir_crawl a b c d e f) end.
+  intro r. destruct (p_exn r); [apply import_frame_refl|]. destruct (p_ood r); [apply import_frame_refl|].
+  simpl. apply (fold_partial2_inv _ _ (fun d => import_frame d0 d)).
+  - apply import_frame_refl.
+  - intros d it d' e _ Hf Hs. unfold dir_copy in Hs.
+    eapply import_frame_step; [apply job_id_shape|exact Hf|exact Hs].
 Qed.
 
 (* ------------------------------------------------------------------ the two import theorems, for
